@@ -1,6 +1,9 @@
 package np
 
-import "strings"
+import (
+	"fmt"
+	"strings"
+)
 
 // Reviewed site tables of the TCP sender/receiver core, shared by C01-C05.
 // Each entry was printed by `npcheck -dump spec:...` from the tree, read
@@ -89,7 +92,7 @@ func consumeSegmentTable() []taggedSpec {
 			Why: "... and so does the local segSeq from which rcvNxt is computed"}},
 		{"C01 C04", SiteSpec{Kind: "call", Target: "(*tcp.endpoint).readyToRead", Args: []string{"$0.ep", "$1"}, Guards: []string{"!($3 == 0)", inw}, Exact: true, N: 1,
 			Why: "data is handed to the reader exactly when it contains rcvNxt (in order, inside the window), after trimming"}},
-		{"C01", SiteSpec{Kind: "return", Target: "", Args: []string{"false"}, Guards: []string{"!($0.rcvNxt == $2)", "($3 == 0)"}, Exact: true, N: 1, Why: "an empty segment (FIN) is consumable only exactly at rcvNxt"}},
+		{"C01 C02", SiteSpec{Kind: "return", Target: "", Args: []string{"false"}, Guards: []string{"!($0.rcvNxt == $2)", "($3 == 0)"}, Exact: true, N: 1, Why: "an empty segment (bare FIN, pure ACK) is consumable only exactly at rcvNxt: end-of-stream is never signalled across a gap"}},
 		{"C01", SiteSpec{Kind: "store", Target: "tcp.receiver.rcvNxt", Args: []string{"$0", "seqnum.Value.Add(new(seqnum.Value)@u, phi{$3 | phi{$3 | ($3 - " + diff + ")}})"}, Guards: []string{}, Exact: true, N: 1,
 			Why: "rcvNxt = (trimmed) segSeq + (trimmed) segLen: advances by exactly the bytes handed to the reader"}},
 		{"C01 C02", SiteSpec{Kind: "store", Target: "tcp.receiver.rcvNxt", Args: []string{"$0", "($0.rcvNxt@1 + 1)"}, Guards: []string{fin}, Exact: true, N: 1, Why: "a FIN consumes one sequence number"}},
@@ -122,4 +125,90 @@ func rcvHandleSegmentTable() []taggedSpec {
 		{"C01 C05", SiteSpec{Kind: "call", Target: "(*tcp.sender).sendAck", Args: []string{"$0.ep.snd"}, Guards: []string{"!$0.closed", "!" + acc}, Exact: true, N: 1, Why: "an unacceptable segment only triggers an ACK (RFC 793 p.37)"}},
 		{"C01 C05", SiteSpec{Kind: "call", Target: "(*tcp.sender).sendAck", Args: []string{"$0.ep.snd"}, Guards: []string{"!$0.closed", "!" + cons, acc}, N: 1, Why: "an out-of-order segment triggers an immediate (duplicate) ACK so the peer can fast-retransmit"}},
 	}
+}
+
+// logicalLenRule: a segment's length in sequence space is its payload size
+// plus one for SYN and plus one for FIN, each flag tested on its own (all four
+// combinations are enumerated from the code's paths). Everything that moves
+// through sequence space by "the length of a segment" relies on it: the
+// receiver's rcvNxt advance and FIN consumption (C01, C02), the ACK number of a
+// reset answering a stray segment (C03), the sender's accounting of
+// acknowledged segments.
+func logicalLenRule(c *Ctx, rule string) {
+	fn := c.Fn(rule, "(*tcp.segment).logicalLen")
+	if fn == nil {
+		return
+	}
+	pos := c.P.Pos(fn.Pos())
+	ps, es := WalkPaths(fn, 32)
+	if es != "" {
+		c.Bad(rule, FuncName(fn)+"/undecided", pos, es)
+		return
+	}
+	const size = "buffer.VectorisedView.Size($0.data)"
+	syn, fin := "(*tcp.segment).flagIsSet($0, 2)", "(*tcp.segment).flagIsSet($0, 1)"
+	seen := map[string]bool{}
+	for _, p := range ps {
+		nSyn, nFin, okAtoms := -1, -1, true
+		for _, cnd := range p.Conds {
+			neg := strings.HasPrefix(cnd, "!")
+			a := strings.TrimPrefix(cnd, "!")
+			v := 1
+			if neg {
+				v = 0
+			}
+			switch a {
+			case syn:
+				nSyn = v
+			case fin:
+				nFin = v
+			default:
+				okAtoms = false
+			}
+		}
+		key := FuncName(fn) + "/row:[" + strings.Join(p.Conds, " && ") + "]"
+		if !okAtoms || nSyn < 0 || nFin < 0 {
+			c.Bad(rule, key, pos, "the length is decided by a test other than 'SYN set' and 'FIN set', each on its own: "+strings.Join(p.Conds, " && "))
+			continue
+		}
+		seen[fmt.Sprintf("%d%d", nSyn, nFin)] = true
+		res := strings.TrimPrefix(p.Result, "return ")
+		extra, ok := sumOfOnes(strings.Replace(res, size, "0", 1))
+		if !ok || !strings.Contains(res, size) {
+			c.Bad(rule, key, pos, "result "+res+" is not payload size plus a constant")
+			continue
+		}
+		c.Check(extra == nSyn+nFin, rule, key, pos, fmt.Sprintf("length = payload size + %d", extra), fmt.Sprintf("length = payload size + %d for a segment with SYN=%d FIN=%d; each of SYN and FIN occupies one sequence number (expected + %d)", extra, nSyn, nFin, nSyn+nFin))
+	}
+	c.Check(len(seen) == 4, rule, FuncName(fn)+"/four-combinations", pos, "all four SYN/FIN combinations have their own path", "not every SYN/FIN combination is distinguished")
+	if g := c.Fn(rule, "(*tcp.segment).flagIsSet"); g != nil {
+		gp, ges := WalkPaths(g, 8)
+		rows := FormatPaths(gp, false)
+		ok := ges == "" && len(rows) == 1 && rows[0] == "[] => return (($0.flags & $1) != 0)"
+		c.Check(ok, rule, FuncName(g)+"/mask-test", c.P.Pos(g.Pos()), "flagIsSet(f) = flags&f != 0", "flagIsSet is no longer flags&f != 0: "+strings.Join(rows, "; "))
+	}
+}
+
+// sumOfOnes evaluates an expression made of integer literals, '+' and
+// parentheses.
+func sumOfOnes(s string) (int, bool) {
+	total, cur, has := 0, 0, false
+	for _, r := range s {
+		switch {
+		case r >= '0' && r <= '9':
+			cur = cur*10 + int(r-'0')
+			has = true
+		case r == '+' || r == '(' || r == ')' || r == ' ':
+			if has {
+				total += cur
+				cur, has = 0, false
+			}
+		default:
+			return 0, false
+		}
+	}
+	if has {
+		total += cur
+	}
+	return total, true
 }
